@@ -20,6 +20,14 @@ CLAIMED.update({
     "C16": ("Kernel obligations K0-K4 from the MIR: 128x128 multiply, 256/64 and 256/128 Knuth division for all 64 normalisation shifts "
             "(merged-state encoding with proved stepping-stone lemmas), dispatch, floor fix-ups, rounded wide quotients for all modes and signs.", "2 C16"),
 })
+CLAIMED.update({
+    "C03": ("Div/CheckedDiv/DivAssign for all operand shapes: zero divisor, zero dividend and divisor-one short-cuts, rounding to 18 digits through "
+            "checked_div_rounded (contract; its obligations are the C04 'cdr' cases), normalisation (contract proved from the MIR for every entry scale); "
+            "all 361 scale pairs for Decimal/Decimal.", "2 C03"),
+    "C04": ("checked_div_rounded proved against the declarative single-rounding relation for every (dividend scale, n + divisor scale) class, mode and "
+            "sign class; div_rounded wrappers for Decimal/int/int-by-int shapes and reference forms, n > 18 rejection, mul_rounded, quantize "
+            "(wiring to div_rounded(.., 0) and exact multiplication).", "2 C04"),
+})
 NA = {}
 
 def main():
